@@ -127,6 +127,13 @@ Proof. intros Hne. unfold get_assoc, set_assoc. simpl.
     rewrite IH. simpl. now rewrite E2.
   - destruct (String.eqb k' a); auto. Qed.
 
+Lemma get_assoc_del_other {V} k k' (l : list (string * V)) : k <> k' -> get_assoc k' (del_assoc k l) = get_assoc k' l.
+Proof. intros Hne. unfold get_assoc, del_assoc. f_equal. induction l as [|[a b] r IH]; simpl; auto.
+  destruct (String.eqb k a) eqn:E; simpl.
+  - apply String.eqb_eq in E; subst a. assert (String.eqb k' k = false) as E2 by (apply String.eqb_neq; congruence).
+    rewrite IH. now rewrite E2.
+  - destruct (String.eqb k' a); auto. Qed.
+
 Ltac adj :=
   match goal with
   | H : In _ (match ?x with Some _ => _ | None => [] end) |- _ => destruct x eqn:?; [|destruct H]
@@ -234,7 +241,7 @@ Proof.
         destruct (t_cur src) eqn:Ecur; [|exfalso; now apply (Hc Hd)].
         cbn [t_marks]. rewrite get_assoc_set_same. discriminate.
       * rewrite get_assoc_set_other in Hg by auto.
-        destruct (t_cur src); cbn [t_marks]; [rewrite get_assoc_set_other by auto|]; eapply Hm; eauto.
+        destruct (t_cur src); cbn [t_marks]; [rewrite get_assoc_set_other by auto | rewrite get_assoc_del_other by auto]; eapply Hm; eauto.
   - (* select *) destruct (is_elem d) eqn:Ed; [|discriminate].
     destruct names as [|m [|m2 r]]; inversion Hty; subst.
     + apply in_map_iff in Hin as [src [<- Hs]]. destruct (Hsrc src Hs) as [Hc Hm]. specialize (Hm (elem_revivable _ Ed)).
